@@ -3,11 +3,8 @@ import os
 from .. import core, pathcheck as pc
 
 
-def corpus(pid):
-    p = os.path.join(core.ROOT, "corpus", pid + ".cases")
-    if not os.path.exists(p):
-        return []
-    return [l.strip() for l in open(p) if l.strip() and not l.startswith("#")]
+def corpus(pid, tier="quick"):
+    return core.corpus(pid, tier)
 
 
 def run_property(ctx, make_lines, rule, oracle, assumptions, nontrivial, n_quick, n_thorough, name_of_corr):
@@ -17,7 +14,7 @@ def run_property(ctx, make_lines, rule, oracle, assumptions, nontrivial, n_quick
         return core.finish(ctx, rule=rule)
     core.proof_gate(ctx)
     n = n_quick if ctx.tier == "quick" else n_thorough
-    lines = make_lines(ctx.rng, n) if n == 0 else corpus(ctx.pid) + make_lines(ctx.rng, n)
+    lines = make_lines(ctx.rng, n) if n == 0 else corpus(ctx.pid, ctx.tier) + make_lines(ctx.rng, n)
     try:
         aug, impl, model = pc.run(lines)
     except RuntimeError as e:
